@@ -125,6 +125,9 @@ impl<'a> P<'a> {
             }
             b'{' => {
                 let mut items: Vec<(R, R)> = vec![];
+                // names seen so far (decoded when they decode, spelled otherwise): duplicate
+                // detection stays linear for very wide objects
+                let mut seen: std::collections::HashSet<Vec<u8>> = std::collections::HashSet::new();
                 let mut j = skip_ws(b, i + 1);
                 if j >= b.len() {
                     return self.err(j, ErrKind::Eof);
@@ -150,14 +153,15 @@ impl<'a> P<'a> {
                     }
                     let (v, e) = self.value(j + 1, depth + 1)?;
                     if !self.flags.has_dup_keys {
-                        let kb = &b[k.start..k.end];
-                        if items.iter().any(|(k2, _)| {
-                            &b[k2.start..k2.end] == kb
-                                || match (&k2.k, &k.k) {
-                                    (K::Str { decoded: Some(a), .. }, K::Str { decoded: Some(c), .. }) => a == c,
-                                    _ => false,
-                                }
-                        }) {
+                        let name: Vec<u8> = match &k.k {
+                            K::Str { decoded: Some(a), .. } => a.as_bytes().to_vec(),
+                            _ => {
+                                let mut raw = vec![0xffu8];
+                                raw.extend_from_slice(&b[k.start..k.end]);
+                                raw
+                            }
+                        };
+                        if !seen.insert(name) {
                             self.flags.has_dup_keys = true;
                         }
                     }
